@@ -11,8 +11,9 @@ import json, os, re, shutil, subprocess, sys, time, hashlib, random
 ROOT = os.path.dirname(os.path.dirname(os.path.abspath(__file__)))
 OUT = os.path.join(ROOT, "out")
 SPEC = os.path.join(ROOT, "spec")
-HARNESS = os.path.join(ROOT, "harness")
-BIN = os.path.join(OUT, "bin")
+# VERIF_HARNESS: a copy of harness/ whose go.mod points at a scratch worktree (mutant runs during development)
+HARNESS = os.environ.get("VERIF_HARNESS") or os.path.join(ROOT, "harness")
+BIN = os.path.join(OUT, "bin" if not os.environ.get("VERIF_HARNESS") else "bin-" + hashlib.sha1(HARNESS.encode()).hexdigest()[:8])
 REPLAYS = os.path.join(OUT, "replays")
 EVID = os.path.join(ROOT, "evidence")
 NCPU = os.cpu_count() or 4
